@@ -1,1 +1,74 @@
-//! Harness contracts for C06.
+//! Harness contracts for C06 / C07.
+//!
+//! `Acl` wires the `AccessControl` trait exactly like the `nft-access-control`
+//! example (`set_admin` in the constructor, `#[contractimpl(contracttrait)] impl
+//! AccessControl for Acl {}`) and adds probe entry points guarded by each of the
+//! access-control attribute macros.  The probes have no logic of their own beyond
+//! bumping a counter (the "privileged effect") and returning its new value.
+
+pub mod acl {
+    use soroban_sdk::{contract, contractimpl, symbol_short, Address, Env, Symbol, Vec};
+    use stellar_access::access_control::{set_admin, AccessControl};
+    use stellar_macros::{has_any_role, has_role, only_admin, only_any_role, only_role};
+
+    const COUNTER: Symbol = symbol_short!("CNT");
+
+    fn bump(e: &Env) -> u32 {
+        let c: u32 = e.storage().instance().get(&COUNTER).unwrap_or(0);
+        e.storage().instance().set(&COUNTER, &(c + 1));
+        c + 1
+    }
+
+    #[contract]
+    pub struct Acl;
+
+    #[contractimpl]
+    impl Acl {
+        pub fn __constructor(e: &Env, admin: Address) {
+            set_admin(e, &admin);
+        }
+
+        /// number of privileged effects so far (unguarded read)
+        pub fn counter(e: &Env) -> u32 {
+            e.storage().instance().get(&COUNTER).unwrap_or(0)
+        }
+
+        #[only_admin]
+        pub fn p_admin(e: &Env) -> u32 {
+            bump(e)
+        }
+
+        /// role check + require_auth injected by the macro
+        #[only_role(caller, "r1")]
+        pub fn p_only_r1(e: &Env, caller: Address) -> u32 {
+            bump(e)
+        }
+
+        /// role check only (documented: `#[has_role]` does NOT enforce authorization)
+        #[has_role(caller, "r2")]
+        pub fn p_has_r2(e: &Env, caller: Address) -> u32 {
+            bump(e)
+        }
+
+        /// role check by the macro, authorization by the body (documented usage of `#[has_role]`)
+        #[has_role(caller, "r2")]
+        pub fn p_has_r2_auth(e: &Env, caller: Address) -> u32 {
+            caller.require_auth();
+            bump(e)
+        }
+
+        #[only_any_role(caller, ["r1", "r3"])]
+        pub fn p_only_any(e: &Env, caller: Address) -> u32 {
+            bump(e)
+        }
+
+        /// any-role check only (no authorization, as documented)
+        #[has_any_role(caller, ["r0", "r2"])]
+        pub fn p_has_any(e: &Env, caller: Address) -> u32 {
+            bump(e)
+        }
+    }
+
+    #[contractimpl(contracttrait)]
+    impl AccessControl for Acl {}
+}
